@@ -19,6 +19,10 @@ structure St where
   /-- projection handles: name ↦ (accumulated deleted nodes, accumulated deleted edges, the argument sets the
   caller passed when the handle was created). A handle is a VALUE: nothing that happens later may change it. -/
   handles : List (String × (List Nat × List Nat × List Nat × List Nat)) := [("proj", ([], [], [], []))]
+  /-- the graph an adjacency description denotes (`build`): every key and every destination is a node -/
+  fg : G := {}
+  /-- the graph of the relationships a `fetch` selected: their end points and nothing else -/
+  fetchG : G := {}
 
 def splitArrow (ts : List String) : List String × List String :=
   (ts.takeWhile (· ≠ "=>"), (ts.dropWhile (· ≠ "=>")).drop 1)
@@ -67,6 +71,8 @@ def St.graphOf (st : St) (c : String) (ignoreTomb : Bool := false) : G :=
   match c with
   | "ts" => if ignoreTomb then st.g else st.g.dropEdges st.tomb
   | "am" | "csr" => st.g
+  | "fam" | "fcsr" => st.fg
+  | "fetch" => st.fetchG
   | h => match st.handles.lookup h with
     | some (dn, de, _, _) => ((if ignoreTomb then st.g else st.g.dropEdges st.tomb).dropEdges de).dropNodes dn
     | none => st.g
@@ -269,6 +275,35 @@ def step0 (st : St) (ts : List String) : St × String :=
   | ["proj", dn, de] => derive st "proj" "store" dn de out
   | ["proj2", dn, de] => derive st "proj" "proj" dn de out
   | ["proj", name, parent, dn, de] => derive st name parent dn de out
+  | ["proj", name, parent, dn, de, _prov] => derive st name parent dn de out     -- a set is a set in every Duplex implementation
+  | ["build", desc] =>
+      let ents : Option (List (Nat × List Nat)) :=
+        if desc == "-" then some [] else
+        (desc.splitOn ";").mapM (fun ent => match ent.splitOn ">" with
+          | [k, v] => do
+            let src ← k.toNat?
+            if v == "~" || v == "" then some (src, []) else
+              let outs ← (v.splitOn ",").mapM String.toNat?
+              some (src, outs)
+          | _ => none)
+      match ents with
+      | some es =>
+        let g : G := { nodes := es.flatMap (fun kv => kv.1 :: kv.2),
+                       edges := es.flatMap (fun kv => kv.2.map (fun dst => ⟨0, kv.1, dst⟩)) }
+        ({ st with fg := g }, if out == ["ok"] then "ok" else "reject bad-output build")
+      | none => (st, "reject bad-op build")
+  | ["fetch", which] =>
+      let sel : Option (Edge → Bool) := match which with
+        | "all" => some (fun _ => true)
+        | "k0" => some (fun e => e.id % 2 == 0)
+        | "k1" => some (fun e => e.id % 2 == 1)
+        | _ => none
+      match sel with
+      | some f =>
+        let es := st.g.edges.filter f
+        ({ st with fetchG := { nodes := es.flatMap (fun e => [e.start, e.stop]), edges := es } },
+         if out == ["ok"] then "ok" else s!"reject fetch-failed {" ".intercalate out}")
+      | none => (st, "reject bad-op fetch")
   | ["snap", name] => match st.handles.lookup name, out with
       | some (_, _, aN, aE), [txt] =>
         let want (ig : Bool) := specView (st.graphOf name ig) ++ ";" ++ argsOf (canon aN) (canon aE)
